@@ -487,6 +487,30 @@ fn extended_table(rng: &mut Rng, every: u32, until: i64) -> Vec<Entry> {
     t
 }
 
+/// The real list, then one entry on the first of every month from 2017-02: the offset climbs to
+/// 255 s (all a `u8` holds) and comes down again by 60 s. 279 entries after the real 28.
+fn huge_table() -> Vec<Entry> {
+    let mut t = real_table();
+    let (mut y, mut m, mut dat) = (2017i64, 1u32, 37i32);
+    let mut push = |dat: i32| {
+        m += 1;
+        if m > 12 {
+            m = 1;
+            y += 1;
+        }
+        t.push((ntp_seconds_of_date(y, m, 1), dat as u8));
+    };
+    while dat < 255 {
+        dat += 1;
+        push(dat);
+    }
+    for _ in 0..60 {
+        dat -= 1;
+        push(dat);
+    }
+    t
+}
+
 pub fn random_table(rng: &mut Rng) -> (Vec<Entry>, &'static str) {
     let real = real_table();
     match rng.below(10) {
@@ -535,6 +559,7 @@ pub fn build_pool(shipped_text: String, shipped_table: Vec<Entry>, n_rendered: u
         let (mut table, mut tclass) = random_table(&mut r);
         let mut style = random_style(&mut r);
         let mut far = false;
+        let mut zero_bytes = false;
         if i % 8 == 4 {
             // a list that does not start in 1972: the first k entries trimmed away
             let real = real_table();
@@ -565,6 +590,26 @@ pub fn build_pool(shipped_text: String, shipped_table: Vec<Entry>, n_rendered: u
             table = extended_table(&mut r, every, 2099);
             tclass = "farfuture";
             far = true;
+            match (i / 16) % 4 {
+                1 => {
+                    // a list without a single entry (comments only): nothing is in force, ever
+                    table = Vec::new();
+                    tclass = "emptytable";
+                }
+                2 => {
+                    // a file of zero bytes
+                    table = Vec::new();
+                    tclass = "zerobytes";
+                    zero_bytes = true;
+                }
+                3 => {
+                    // far more entries than anything sized after today's list holds, and offsets
+                    // past 127: one entry a month, up to 255 s and down again
+                    table = huge_table();
+                    tclass = "hugetable";
+                }
+                _ => {}
+            }
         }
         // One image in eight is large: comment bulk (average line about 50 bytes) sized to cross
         // 16, 32, 64 or 128 KiB, placed before the data, after it, or split around it.
@@ -660,6 +705,9 @@ pub fn build_pool(shipped_text: String, shipped_table: Vec<Entry>, n_rendered: u
         }
         let text = render(&table, &style, &mut r);
         let mut text = text;
+        if zero_bytes {
+            text.clear();
+        }
         let mut odd = "";
         if i % 16 == 3 {
             // leading zeros in the offset column of some lines; a UTF-8 byte order mark in front
